@@ -4,7 +4,7 @@ When a maximal simplex (toplex) is erased inside a loop over the toplexes and si
 iteration, the re-inserted simplices must be computed from the erased toplex: the faces of the toplex that survive
 the operation are a function of that toplex. An insertion whose argument does not depend on the loop's toplex
 re-creates something else and silently drops the other faces."""
-from gsa import facts, ir
+from gsa import facts, ir, paths
 from gsa.facts import Unit, rel, AnalysisBroken
 from gsa.report import Check
 
@@ -42,6 +42,84 @@ def dependence(body, seeds):
                         dep.add(r[1])
                         changed = True
     return dep
+
+
+def run_face_only_reinsertion(chk, F):
+    """insert_independent_simplex stores its argument without looking for stored faces of it: inside an
+    erase-and-reinsert loop it may only receive a simplex obtained from the erased toplex by REMOVING vertices (a
+    face); a simplex that received a new vertex (contraction, collapse) can contain another stored toplex and must
+    go through insert_simplex"""
+    n = 0
+    for f in F.functions:
+        if f.get('clsname') not in ('Toplex_map',) or f['inst'] not in (0, 2):
+            continue
+        for loop in ir.walk(f.get('body')):
+            if loop.get('k') != 'CXXForRangeStmt':
+                continue
+            body = loop.get('body')
+            calls = [x for x in ir.walk(body) if ir.is_call(x) and ir.call_name(x) == 'insert_independent_simplex']
+            if not calls:
+                continue
+            # locals of the loop body that received a vertex
+            grown = set()
+            for x in ir.walk(body):
+                if ir.is_call(x) and ir.call_name(x) in ('insert', 'emplace', 'push_back', 'emplace_back'):
+                    r = ir.call_receiver(x)
+                    rr = ir.access_root(r) if r is not None else None
+                    if rr and rr[0] == 'var':
+                        grown.add(rr[1])
+            dep = dependence(body, grown) if grown else set()
+            for c in calls:
+                n += 1
+                args = ir.call_args(c)
+                bad = any(refs(a) & dep for a in args)
+                chk.ob('E10-face-only', '%s::%s: insert_independent_simplex receives a face of the erased toplex'
+                       % (f['clsname'], f['name']), '%s:%s' % (rel(f['file']), c.get('l')), not bad,
+                       '' if not bad else 'the simplex %s received a new vertex in this iteration: it may strictly '
+                       'contain another stored toplex, which insert_independent_simplex does not remove (the eager map '
+                       'would store a non-maximal simplex)' % ir.show(args[0]),
+                       key='E10|%s::%s|face-only' % (f['clsname'], f['name']))
+    chk.expect_count('E10-face-only', 'insert_independent_simplex calls in loops', n, 1)
+
+
+def run_remove_all_cofaces(chk, F):
+    """remove_simplex deletes the simplex and ALL its stored cofaces: every path that erases a stored simplex does it
+    inside the loop over the simplices stored at the pivot vertex (filtered by inclusion) - no path erases one
+    simplex and returns without having walked that list"""
+    n = 0
+    for f in F.functions:
+        if f.get('clsname') not in ('Toplex_map', 'Lazy_toplex_map') or f['name'] != 'remove_simplex' or \
+                f['inst'] not in (0, 2):
+            continue
+        n += 1
+        loops = [x for x in ir.walk(f['body']) if x.get('k') == 'CXXForRangeStmt' and 't0.at(' in ir.show(x.get('range'))]
+
+        def cl(x, loops=loops):
+            if ir.is_call(x) and ir.call_name(x) in ERASERS:
+                return ['ERASE']
+            if x.get('k') == 'CXXForRangeStmt' and any(x is l for l in loops):
+                return ['$loop']
+            return []
+        ps = paths.enumerate_paths(f, cl, loop_mode='1', keep_conds=True)
+        bad = None
+        for p in ps:
+            if 'ERASE' not in p.tags():
+                continue
+            in_loop = False
+            ok = True
+            for tag, node in p.events:
+                if tag == '?' and not isinstance(node[0], tuple) and any(node[0] is l for l in loops) and node[1]:
+                    in_loop = True
+                if tag == 'ERASE' and not in_loop:
+                    ok = False
+            if not ok and bad is None:
+                bad = p
+        chk.ob('E2-all-cofaces', '%s::remove_simplex erases stored simplices only while walking the list of the pivot '
+               'vertex' % f['clsname'], '%s:%d' % (rel(f['file']), f['line']), bad is None and bool(loops),
+               '' if bad is None and loops else 'a path erases one stored simplex outside the loop over t0.at(v): '
+               'other stored cofaces of the removed simplex survive (the lazy map keeps non-maximal simplices)',
+               key='E2|%s::remove_simplex|all-cofaces' % f['clsname'])
+    chk.expect_count('E2-all-cofaces', 'remove_simplex implementations', n, 2)
 
 
 def run(tier, replay=None):
@@ -84,6 +162,8 @@ def run(tier, replay=None):
                        'faces of that toplex are lost' % (ir.show(args[0]) if args else '?',
                                                           (loop.get('var') or {}).get('n')),
                        key='E10|%s::%s|%s' % (f['clsname'], f['name'], ir.call_name(ins)))
+    run_face_only_reinsertion(chk, F)
+    run_remove_all_cofaces(chk, F)
     chk.count('erase-and-reinsert loops', n_loops)
     chk.expect_count('E10-provenance', 'erase-and-reinsert loops', n_loops, 6)
     chk.assumptions += ['clang 14 parser', 'dependence is syntactic def-use over the loop body (sound over-approximation '
